@@ -1085,6 +1085,7 @@ impl<'r> Gen<'r> {
             6 => *self.rng.pick(&[63usize, 64, 65]),
             7 => self.rng.range(4, 16) as usize,
             8 => self.rng.range(16, 200) as usize,
+            9 if self.budget >= 5000 => self.rng.range(2040, 6000) as usize,
             _ => self.rng.range(0, 8) as usize,
         };
         let cap = (self.budget / elem_cost.max(1)).max(if self.budget > 0 { 1 } else { 0 });
@@ -1195,10 +1196,22 @@ impl<'r> Gen<'r> {
                 let mut items = Vec::with_capacity(n);
                 let big = n > 256;
                 let saved = self.budget;
-                for _ in 0..n {
+                // now and then one element of a small sequence is itself large (> 2 KiB, up to
+                // beyond the 16 KiB window): large items inside per-item encoded sequences
+                let fat = if !big && n > 0 && self.rng.chance(1, 30) { Some(self.rng.usize_below(n)) } else { None };
+                for i in 0..n {
                     if big {
                         // keep elements of big sequences tiny
                         self.budget = 2;
+                    }
+                    if fat == Some(i) {
+                        let (b0, a0) = (self.budget, self.allow_big);
+                        self.budget = 40_000;
+                        self.allow_big = true;
+                        items.push(self.gen(e));
+                        self.budget = b0.min(200);
+                        self.allow_big = a0;
+                        continue;
                     }
                     items.push(self.gen(e));
                 }
